@@ -1191,7 +1191,8 @@ static void IRP_OutProcessor(void) {
     if (FirstOutputTag->NestLevel == -1) {
         Tmp               = FirstOutputTag;
         FirstOutputTag    = FirstOutputTag->Next;
-        Tmp->Tag->IsEmpty = !Tmp->Tag->Lines;
+        /* nothing to iterate over (IRPC with an empty string): no pass through the body */
+        Tmp->Tag->IsEmpty = !Tmp->Tag->Lines || (Tmp->Tag->ParCnt == 0);
         if (IfAsm) {
             NextDoLst      = ApplyLstMacroExpMod(DoLst, &LstMacroExpModDefault);
             NextDoLst      = ApplyLstMacroExpMod(NextDoLst, &LstMacroExpModOverride);
